@@ -10,8 +10,12 @@ Lines (tab separated; `k=v` fields, lists `;`-separated with `:` inside):
   liq.slice.single  len off batch s1 e1 s2 e2                      real GetSliceStartEndForLiquidations of both generations
   liq.cr.single     product amountIn totalOut <raw|err|panic>      real vault CalculateCollateralizationRatio (current env)
   liq.br.single     assetIn assetOut amountIn debt <raw|err|panic> real lend CalculateCollateralizationRatio (current env)
-pre  := V=<id:app:prod:in:out:int:fee>… C= O=<key:off>… VB= AB= LID= AID= PB= B=<borrow>…
-post := V=<ids,> C= O= VB= AB= LID= AID= NL=<id:orig:app:amt:isBorrow>… NA=<id:locked:asset:amt>… PB= BL=<ids,>
+  liq.selloff.single amountIn updatedOut pIn pOut dIn dOut c pen bon | cr selloff toAuction toReserve burnt newAmountIn lendReduction <ok|err>
+                     real generation-1 UpdateLockedBorrows (direct keeper call on a branch)
+pre  := V=<id:app:prod:in:out:int:fee:intAfterAccrual>… C= O=<key:off>… VB= AB= LID= AID= PB= B=<borrow, 23 fields>… LS=<lend:amountIn>…
+        TL=/TB=<pool·2³²+asset:total>… PT=<product:minted:locked>…
+post := V=<ids,> C= O= VB= AB= LID= AID= NL=<id:orig:app:amt:isBorrow:debt:target:fee:bonus:cr:collToBeAuctioned>…
+        NA=<id:locked:asset:amt:target>… PB= BL=<ids,> LS= TL= TB= PT=
 Monitors (on REAL pre/post): safe_never_seized, slice_bounds, seized_within_bound, seized_within_two_sweeps (D9: the
 property's literal bound, reported under this name only while model and code have agreed on every line of the sequence;
 after a divergence it is `seized_late_after_divergence`), gen1_app3_offset_collision (generation 1, vault app id =
@@ -52,7 +56,7 @@ def parseAsset (s : String) : Option Asset :=
   | _ => none
 def parseProduct (s : String) : Option Product :=
   match s.splitOn ":" with
-  | [i, a, m, ai, ao, o, f] => some { id := nat! i, app := nat! a, minCr := int! m, assetIn := nat! ai, assetOut := nat! ao, outOracle := bool! o, outFixed := int! f }
+  | [i, a, m, ai, ao, o, f, pn] => some { id := nat! i, app := nat! a, minCr := int! m, assetIn := nat! ai, assetOut := nat! ao, outOracle := bool! o, outFixed := int! f, penalty := int! pn }
   | _ => none
 def parseApp (s : String) : Option App :=
   match s.splitOn ":" with
@@ -60,14 +64,16 @@ def parseApp (s : String) : Option App :=
   | _ => none
 def parseVault (s : String) : Option Vault :=
   match s.splitOn ":" with
-  | [i, a, p, ai, ao, it, cf] => some { id := nat! i, app := nat! a, prod := nat! p, amountIn := int! ai, amountOut := int! ao, interest := int! it, closingFee := int! cf }
+  | [i, a, p, ai, ao, it, cf, ip] => some { id := nat! i, app := nat! a, prod := nat! p, amountIn := int! ai, amountOut := int! ao, interest := int! it, closingFee := int! cf, intPost := int! ip }
   | _ => none
 def parseBorrow (s : String) : Option Borrow :=
   match s.splitOn ":" with
-  | [i, a, p, ai, ao, am, d, ba, bas, t1, t2, lq, em, lt, elt, l1, l2] =>
-    some { id := nat! i, app := nat! a, pool := nat! p, assetIn := nat! ai, assetOut := nat! ao, amountIn := int! am, debt := int! d,
+  | [i, a, p, ai, ao, am, pr, ip, ba, bas, t1, t2, lq, em, lt, elt, l1, l2, pen, bon, ca, li, op] =>
+    some { id := nat! i, app := nat! a, pool := nat! p, assetIn := nat! ai, assetOut := nat! ao, amountIn := int! am,
+           principal := int! pr, interestPost := int! ip,
            bridgedAmount := int! ba, bridgedAsset := nat! bas, firstTransit := nat! t1, secondTransit := nat! t2,
-           liquidated := bool! lq, emode := bool! em, lt := int! lt, elt := int! elt, ltFirst := int! l1, ltSecond := int! l2 }
+           liquidated := bool! lq, emode := bool! em, lt := int! lt, elt := int! elt, ltFirst := int! l1, ltSecond := int! l2,
+           pen := int! pen, bon := int! bon, cAsset := nat! ca, lendId := nat! li, outPool := nat! op }
   | _ => none
 def parsePair (s : String) : Option (Nat × Int) :=
   match s.splitOn ":" with
@@ -79,11 +85,11 @@ def parseOff (s : String) : Option (Nat × Nat) :=
   | _ => none
 def parseLocked (s : String) : Option Locked :=
   match s.splitOn ":" with
-  | [i, o, a, am, b] => some { id := nat! i, orig := nat! o, app := nat! a, amountIn := int! am, isBorrow := bool! b }
+  | [i, o, a, am, b, d, t, f, bo, cr, cv] => some { id := nat! i, orig := nat! o, app := nat! a, amountIn := int! am, isBorrow := bool! b, debt := int! d, target := int! t, fee := int! f, bonus := int! bo, cr := int! cr, collValue := int! cv }
   | _ => none
 def parseAuction (s : String) : Option Auction :=
   match s.splitOn ":" with
-  | [i, l, a, am] => some { id := nat! i, locked := nat! l, asset := nat! a, amount := int! am }
+  | [i, l, a, am, t] => some { id := nat! i, locked := nat! l, asset := nat! a, amount := int! am, target := int! t }
   | _ => none
 
 def fld (fs : List String) (k : String) : String := (field? fs k).getD ""
@@ -101,7 +107,10 @@ def parsePre (fs : List String) : Option World := do
   let ab ← (items (fld fs "AB") ";").mapM parsePair
   let pb ← (items (fld fs "PB") ";").mapM parsePair
   let b ← (items (fld fs "B") ";").mapM parseBorrow
-  pure { vaults := v, counter := nat! (fld fs "C"), offsets := o, vaultBal := vb, auctionBal := ab, poolBal := pb,
+  let ls ← (items (fld fs "LS") ";").mapM parsePair
+  let tl ← (items (fld fs "TL") ";").mapM parsePair
+  let tb ← (items (fld fs "TB") ";").mapM parsePair
+  pure { lendBal := ls, totalLend := tl, totalBorrowed := tb, vaults := v, counter := nat! (fld fs "C"), offsets := o, vaultBal := vb, auctionBal := ab, poolBal := pb,
          lockedId := nat! (fld fs "LID"), auctionId := nat! (fld fs "AID"), borrows := b }
 
 structure Post where
@@ -116,6 +125,10 @@ structure Post where
   nl : List Locked
   na : List Auction
   bl : List Nat
+  ls : Bal
+  tl : Bal
+  tb : Bal
+  pt : String
 
 def insertBy {α} (key : α → Nat) (x : α) : List α → List α
   | [] => [x]
@@ -129,12 +142,15 @@ def parsePost (fs : List String) : Option Post := do
   let pb ← (items (fld fs "PB") ";").mapM parsePair
   let nl ← (items (fld fs "NL") ";").mapM parseLocked
   let na ← (items (fld fs "NA") ";").mapM parseAuction
-  pure { ids := (items (fld fs "V") ",").map nat!, counter := nat! (fld fs "C"), offsets := o, vaultBal := vb, auctionBal := ab, poolBal := pb,
+  let ls ← (items (fld fs "LS") ";").mapM parsePair
+  let tl ← (items (fld fs "TL") ";").mapM parsePair
+  let tb ← (items (fld fs "TB") ";").mapM parsePair
+  pure { ls := sortBy (·.1) ls, tl := sortBy (·.1) tl, tb := sortBy (·.1) tb, pt := fld fs "PT", ids := (items (fld fs "V") ",").map nat!, counter := nat! (fld fs "C"), offsets := o, vaultBal := vb, auctionBal := ab, poolBal := pb,
          lockedId := nat! (fld fs "LID"), auctionId := nat! (fld fs "AID"), nl := sortBy (·.id) nl, na := sortBy (·.id) na,
          bl := (items (fld fs "BL") ",").map nat! }
 
-def postOf (w : World) : Post :=
-  { ids := w.vaults.map (·.id), counter := w.counter, offsets := sortBy (·.1) w.offsets, vaultBal := w.vaultBal, auctionBal := w.auctionBal,
+def postOf (w : World) (pt : String) : Post :=
+  { ls := sortBy (·.1) w.lendBal, tl := sortBy (·.1) w.totalLend, tb := sortBy (·.1) w.totalBorrowed, pt := pt, ids := w.vaults.map (·.id), counter := w.counter, offsets := sortBy (·.1) w.offsets, vaultBal := w.vaultBal, auctionBal := w.auctionBal,
     poolBal := w.poolBal, lockedId := w.lockedId, auctionId := w.auctionId, nl := w.newLocked, na := w.newAuctions,
     bl := (w.borrows.filter (·.liquidated)).map (·.id) }
 
@@ -151,6 +167,10 @@ def diffPost (m r : Post) : Option String :=
   else if m.nl != r.nl then some s!"NL model={repr m.nl} impl={repr r.nl}"
   else if m.na != r.na then some s!"NA model={repr m.na} impl={repr r.na}"
   else if m.bl != r.bl then some s!"BL model={m.bl} impl={r.bl}"
+  else if m.ls != r.ls then some s!"LS model={m.ls} impl={r.ls}"
+  else if m.tl != r.tl then some s!"TL model={m.tl} impl={r.tl}"
+  else if m.tb != r.tb then some s!"TB model={m.tb} impl={r.tb}"
+  else if m.pt != r.pt then some s!"PT (product totals at hand-over) model={m.pt} impl={r.pt}"
   else none
 
 def isAscending : List Nat → Bool
@@ -167,14 +187,14 @@ def effectMonitors (e : Env) (w : World) (r : Post) : List String :=
     match r.nl.filter (fun l => l.orig == v.id && !l.isBorrow) with
     | [l] => l.amountIn == v.amountIn &&
         (match r.na.filter (fun a => a.locked == l.id) with
-         | [a] => a.amount == v.amountIn && a.asset == assetOfVault v
+         | [a] => a.amount == v.amountIn && a.asset == assetOfVault v && a.target == l.target
          | _ => false)
     | _ => false
   let oneB (b : Borrow) : Bool :=
     match r.nl.filter (fun l => l.orig == b.id && l.isBorrow) with
     | [l] => l.amountIn == b.amountIn &&
         (match r.na.filter (fun a => a.locked == l.id) with
-         | [a] => a.amount == b.amountIn && a.asset == b.assetIn
+         | [a] => a.amount == b.amountIn && a.asset == b.assetIn && a.target == l.target
          | _ => false)
     | _ => false
   let n := gone.length + newB.length
@@ -183,10 +203,12 @@ def effectMonitors (e : Env) (w : World) (r : Post) : List String :=
   let assets := e.assets.map (·.id)
   let sumV (a : Nat) : Int := (gone.filter (fun v => assetOfVault v == a)).foldl (fun acc v => acc + v.amountIn) 0
   let sumB (a : Nat) : Int := (newB.filter (fun b => b.assetIn == a)).foldl (fun acc b => acc + b.amountIn) 0
+  -- the pledged cTokens are burnt from the same pool account
+  let sumC (a : Nat) : Int := (newB.filter (fun b => b.cAsset == a)).foldl (fun acc b => acc + b.amountIn) 0
   let exact := assets.all fun a =>
     r.auctionBal.get a - w.auctionBal.get a == sumV a + sumB a &&
     w.vaultBal.get a - r.vaultBal.get a == sumV a &&
-    w.poolBal.get a - r.poolBal.get a == sumB a
+    w.poolBal.get a - r.poolBal.get a == sumB a + sumC a
   (if safe then ["safe_never_seized"] else []) ++ (if one then [] else ["one_auction"]) ++
   (if exact then [] else ["seize_exact_collateral"]) ++ (if isAscending (w.vaults.map (·.id)) then [] else ["store_order"])
 
@@ -258,7 +280,7 @@ def handleBlock (st : St) (seq : String) (fs : List String) : St × List String 
           if consistent then [s!"DIFF\t{seq}\tmodel=panic\timpl={outcome}"] else []
         | .ok w' =>
           if outcome == "panic" then [s!"DIFF\t{seq}\tmodel=ok\timpl=panic"] else
-          match diffPost (postOf w') r with
+          match diffPost (postOf w' (fld preF "PT")) r with
           | some d => [s!"DIFF\t{seq}\t{d}"]
           | none => []
       let sl := if outcome == "panic" && consistent then ["slice_bounds"] else
@@ -291,10 +313,10 @@ def handleMsg (st : St) (seq : String) (a b : Nat) (fs : List String) : St × Li
       let diffs : List String :=
         match model with
         | none => if outcome == "ok" then [s!"DIFF\t{seq}\tmodel=err\timpl=ok"] else
-                  (match diffPost (postOf w) r with | some d => [s!"DIFF\t{seq}\trejected message changed state: {d}"] | none => [])
+                  (match diffPost (postOf w (fld preF "PT")) r with | some d => [s!"DIFF\t{seq}\trejected message changed state: {d}"] | none => [])
         | some w' =>
           if outcome != "ok" then [s!"DIFF\t{seq}\tmodel=ok\timpl={outcome}"] else
-          match diffPost (postOf w') r with
+          match diffPost (postOf w' (fld preF "PT")) r with
           | some d => [s!"DIFF\t{seq}\t{d}"]
           | none => []
       let mons := (effectMonitors st.env w r).map fun m => s!"MON\t{seq}\t{m}"
@@ -329,12 +351,21 @@ def handle (st : St) (seq : String) (f : List String) : St × List String :=
       let r := if res = "panic" then "err" else res
       (st, if m = r then [] else [s!"DIFF\t{seq}\tcr model={m} impl={res}"])
   | ["liq.br.single", ai, ao, am, d, res, _] =>
-    let b : Borrow := { id := 0, app := 0, pool := 0, assetIn := nat! ai, assetOut := nat! ao, amountIn := int! am, debt := int! d,
+    let b : Borrow := { id := 0, app := 0, pool := 0, assetIn := nat! ai, assetOut := nat! ao, amountIn := int! am, principal := int! d,
                         bridgedAmount := 0, bridgedAsset := 0, firstTransit := 0, secondTransit := 0,
                         liquidated := false, emode := false, lt := 0, elt := 0, ltFirst := 0, ltSecond := 0 }
     let m := showR (borrowRatio st.env b)
     let r := if res = "panic" then "err" else res
     (st, if m = r then [] else [s!"DIFF\t{seq}\tbr model={m} impl={res}"])
+  | ["liq.selloff.single", ai, uo, pi, po, di, dout, c, pen, bon, cr, so, ta, tr, td, na, lr, res] =>
+    let i : SellOffIn := { amountIn := int! ai, updatedOut := int! uo, pIn := int! pi, pOut := int! po, dIn := int! di, dOut := int! dout,
+                           c := int! c, pen := int! pen, bon := int! bon }
+    let render (o : SellOffOut) : String := s!"{o.cr} {o.selloff} {o.toAuction} {o.toReserve} {o.totalDeduction} {o.newAmountIn} {o.lendReduction}"
+    let m := match sellOffV1 i with | some o => render o | none => "err"
+    let r := if res = "ok" then s!"{cr} {so} {ta} {tr} {td} {na} {lr}" else "err"
+    -- law on the REAL result: what is sent to the auction account never exceeds what the position held
+    let mon := if res = "ok" && int! ta + int! tr > int! ai then [s!"MON\t{seq}\tgen1_selloff_exceeds_collateral"] else []
+    (st, (if m = r then [] else [s!"DIFF\t{seq}\tselloff model={m} impl={r}"]) ++ mon)
   | _ => (st, [s!"BAD\t{seq}\tunknown liq line"])
 
 end Comdex.Drv.Liquidation
